@@ -155,7 +155,7 @@ def msg_exhaustive(chk, relevant, mask="all", cross_impl=False, spec_relevant=No
     sample_tr = chk.transcript(exe, ["msg-lines", "raw", 0xE3, "--limit", 3], "sample")
     if sample_tr:
         chk.cov["samples"] += [l.strip() for l in open(sample_tr).read().splitlines()[:3]]
-    if chk.tier == "thorough":
+    if chk.search_tier == "thorough":
         # every line of every valid block as well (no reliance on the 64-bit digests)
         for impl in IMPLS:
             lines_run(chk, exe, ["msg-all-lines", impl], "all-lines-" + impl, relevant=relevant)
@@ -261,7 +261,7 @@ def c02(chk):
 def c03(chk):
     chk.extract(("messageTypes", "timeCodeTypes"))
     chk.proofs(["Midi.Props.C03", "Midi.Props.C03S"])
-    chk.translated(['TShort'])
+    chk.translated(['TShort', 'TStruct'])
     # a deviation from the MIDI table that all implementations share is not a C03 violation (it is C01/C02's);
     # the oracle here is (a) pairwise agreement of the four implementations on the same bytes and (b) the one
     # permitted difference: StructuredShortMessage's own data bytes are the canonical ones
@@ -378,6 +378,8 @@ def c04(chk):
         lines_run(chk, exe, ["new-lines", "std"], "new-std")
         lines_run(chk, exe, ["num-lines"], "num")
         blocks_then_lines(chk, exe, ["msg-blocks", "c04"], "blocks")
+        # values read back from every message the factory constructors build (named + generic, all argument tuples)
+        lines_run(chk, exe, ["ctor-range"], "ctor-range")
         # values produced by encoders and scanners (range monitor in the driver on everything the real scanners report)
         lines_run(chk, exe, ["encpn-lines"], "encpn")
         for k in ("cc", "pn", "pp"):
@@ -398,7 +400,8 @@ def c04(chk):
     chk.cov["rule"] = ("every conversion-table row (regenerated from the source) x its source values: ALL values for newtype, 8- and 16-bit sources; "
                        "powers of two +-1, every newtype maximum +-1, type extremes and seeded random values for 32/64/128-bit and pointer-sized sources; "
                        "T::new over every value of the representation type in two feature configurations; all strings over {0-9,+,-,space,a} up to "
-                       "length 4 plus boundary / over-long / leading-zero / non-ASCII numerals; range of every field of every message (2^21 triples). "
+                       "length 4 plus boundary / over-long / leading-zero / non-ASCII numerals; range of every field of every message (2^21 triples) and of every "
+                       "message built by a named or generic constructor (all argument tuples, oracle on the real code). "
                        "distinct = distinct request; non-trivial = all (each calls the real API)")
     chk.assumptions += ["`as` casts, integer comparison and core's u8/u16 FromStr are modelled (validated exhaustively on 8/16-bit domains and on all short strings)",
                         "pointer width of the harness platform is 64; the theorems cover 16, 32 and 64"]
@@ -425,7 +428,7 @@ def c05(chk):
 def scanner_runs(chk, exe, kind, two_channel_thorough=True, strict=False):
     x = ["--strict-reset"] if strict else []
     lines_run(chk, exe, [kind + "-explore", 0] + x, kind + "-explore-1ch", stateful=True)
-    if chk.tier == "thorough" and two_channel_thorough:
+    if chk.search_tier == "thorough" and two_channel_thorough:
         lines_run(chk, exe, [kind + "-explore", 3, 15] if kind == "pn" else [kind + "-explore", 15], kind + "-explore-hi", stateful=True)
         if kind == "pn":
             lines_run(chk, exe, [kind + "-explore", 0, 9], kind + "-explore-2ch", stateful=True)
@@ -482,6 +485,8 @@ def c09(chk):
     run_corpus(chk, exe)
     lines_run(chk, exe, ["encpn-lines"], "encpn")
     sample_from(chk, "encpn", 3)
+    # the named controller-number constants the encoder is documented with (spec: the MIDI 1.0 numbers, by name)
+    lines_run(chk, exe, ["cnpred-lines"], "cnconst", only=r"cnconst ")
     # the serde configuration: a value that enters through Deserialize is "created" / "constructed" too
     exe_s = chk.cargo_build("with_serde")
     if exe_s is not None:
@@ -525,11 +530,11 @@ POLL_RULE = ("polling scanner with the mock clock (hook): product exploration ov
              "model, and the C14 trace monitor runs on the implementation's results. non-trivial = operations that reported a message")
 
 
-def polling_runs(chk, exe, random=True, strict=False):
-    x = ["--strict-reset"] if strict else []
+def polling_runs(chk, exe, random=True, strict=False, full_transparency=False):
+    x = (["--strict-reset"] if strict else []) + (["--full-transparency"] if full_transparency else [])
     lines_run(chk, exe, ["pp-explore", 0, 0] + x, "pp-explore-t0", stateful=True)
     lines_run(chk, exe, ["pp-explore", 3, 0] + x, "pp-explore-t3", stateful=True)
-    if chk.tier == "thorough":
+    if chk.search_tier == "thorough":
         lines_run(chk, exe, ["pp-explore", 3, 15], "pp-explore-t3-ch15", stateful=True)
         lines_run(chk, exe, ["pp-explore", 2, 7], "pp-explore-t2-ch7", stateful=True)
     if random:
@@ -609,12 +614,13 @@ def c16(chk):
     run_corpus(chk, exe)
     lines_run(chk, exe, ["cc-transparent"], "cc-transparent", stateful=True)
     lines_run(chk, exe, ["pn-transparent"], "pn-transparent", stateful=True)
-    polling_runs(chk, exe, random=False)
+    polling_runs(chk, exe, random=False, full_transparency=True)
     lines_run(chk, exe, ["cnpred-lines"], "cnpred")
     sample_from(chk, "cnpred", 2); sample_from(chk, "pn-transparent", 2)
     chk.cov["rule"] = ("every reachable state of the two pure scanners (fixpoint over the abstracted contributing alphabet) x every non-contributing message (all non-contributing "
                        "controller numbers x 3 values, all 112 non-CC status bytes x 4 data-byte pairs): nothing reported and real PartialEq equality with a copy made before; "
-                       "polling scanner: the same probes after every transition of its product exploration; all 128 controller numbers for the predicates; all constants")
+                       "polling scanner: five such probes after every transition of its product exploration and, in every explored state, all 120 non-contributing "
+                       "controller numbers and all 112 non-CC status bytes; all 128 controller numbers for the predicates; all constants")
 
 
 def c17(chk):
